@@ -64,6 +64,7 @@ type Frame struct {
 	caller   *Frame
 	panicV   *PanicV
 	symCount map[ssa.Instruction]int
+	seenTrace map[ssa.Instruction]int
 	result   Value
 	binds    []Value
 }
@@ -578,7 +579,7 @@ func fnName(fn *ssa.Function) string {
 
 func (ex *Exec) callFunction(fn *ssa.Function, args []Value, binds []Value) (Value, *PanicV) {
 	name := fnName(fn)
-	if m, ok := ex.eng.models[name]; ok {
+	if m, ok := ex.eng.models[name]; ok && !ex.isReal(name) {
 		ex.res.Models[name] = true
 		return m(ex, fn, args)
 	}
@@ -607,6 +608,18 @@ func (ex *Exec) callFunction(fn *ssa.Function, args []Value, binds []Value) (Val
 	ex.frame = fr
 	defer func() { ex.frame = saved }()
 	return ex.run(fr)
+}
+
+func (ex *Exec) isReal(name string) bool {
+	if ex.h == nil {
+		return false
+	}
+	for _, r := range ex.h.Real {
+		if r == name {
+			return true
+		}
+	}
+	return false
 }
 
 func (ex *Exec) rtPanic(msg string) *PanicV {
@@ -697,19 +710,29 @@ func (ex *Exec) runBlock(fr *Frame) (*PanicV, bool) {
 		case *ssa.If:
 			cond := ex.term(fr, i.Cond)
 			var taken bool
+			// An iteration counts towards the unwinding bound when a symbolic decision was
+			// taken (here or in a callee) since this branch was last executed in this frame.
+			if fr.symCount == nil {
+				fr.symCount = map[ssa.Instruction]int{}
+				fr.seenTrace = map[ssa.Instruction]int{}
+			}
+			last, visited := fr.seenTrace[i]
+			if !cond.isConst || (visited && len(ex.trace) != last) {
+				fr.symCount[i]++
+				if k, ok := ex.h.UnwindAssume[fr.fn.String()]; ok && fr.symCount[i] > k {
+					ex.eng.noteOnce("assumed: loop in " + trimPkg(fr.fn.String()) + " exits within " + itoa(k) + " iterations (rejection sampling; outside the claim beyond that)")
+					panic(pathEnd{kind: "infeasible"})
+				}
+				if fr.symCount[i] > ex.unwindBound(fr.fn) {
+					panic(pathEnd{kind: "unwind", msg: fmt.Sprintf("loop bound %d exceeded in %s at %s", ex.unwindBound(fr.fn), fr.fn, ex.eng.pos(i))})
+				}
+			}
 			if cond.isConst {
 				taken = cond.cv == 1
 			} else {
-				if fr.symCount == nil {
-					fr.symCount = map[ssa.Instruction]int{}
-				}
-				fr.symCount[i]++
-				if fr.symCount[i] > ex.unwindBound(fr.fn) {
-					// unwinding assertion: is another iteration feasible?
-					panic(pathEnd{kind: "unwind", msg: fmt.Sprintf("loop bound %d exceeded in %s at %s", ex.unwindBound(fr.fn), fr.fn, ex.eng.pos(i))})
-				}
 				taken = ex.branch(cond)
 			}
+			fr.seenTrace[i] = len(ex.trace)
 			fr.prev = fr.block
 			if taken {
 				fr.block = fr.block.Succs[0]
